@@ -101,6 +101,12 @@ def run_C10(ctx):
     impl = C.run_impl(cases, ctx.wd, "cuts")
     model = C.run_model(cases, ctx.wd, "cuts")
     core.compare(ctx, "recover-cuts-and-zero-tails", cases, impl, model)
+    # extraction cross-check for the recovery path: open_dir on a sample of these images inside Coq
+    import vmcheck
+    nvm, vmf = vmcheck.run_vm_img(ctx, rnd.sample(cases, min(len(cases), 400)), n=ctx.scale(8, 64))
+    for mm in vmf[:2]:
+        ctx.fail("corr", "extraction cross-check: vm_compute inside Coq disagrees with the extracted model on open_dir", dict(check="vm", detail=mm))
+    ctx.k_checks["extraction-vs-vm_compute-open_dir"] = (not vmf, nvm)
     # direct oracle, independent of the model
     bad = 0
     for c, m, a in zip(cases, meta, impl):
